@@ -36,7 +36,18 @@ package streams
 //                                    set it, or modified the catalog the transaction was started from
 //   (f) retention:reader-not-suffix  (end-to-end) Find on local.oplog or a change stream opened at the
 //                                    beginning of time does not see exactly the retained suffix
+//   (g) retention:snapshot-trimmed   (C03 and C08) a view taken BEFORE the retention pass lists something
+//                                    else afterwards: the catalog the transaction was started from /
+//                                    engine.Catalog() taken before the commit, a read-only transaction's Find
+//                                    on local.oplog, an open cursor, the decoded result of an earlier Find; or
+//                                    the published log changed although the commit's Store failed
 // (b)/(c) are skipped for ages outside the engine's validated range (0 … 21 days; `wrap` cases).
+//
+// Management-only transactions: a commit (or a direct Clean) whose transaction only built or dropped an
+// index or created a collection is dirty but never cloned the oplog — its catalog still holds the very
+// oplog collection every earlier snapshot holds.  Direct cases with Mgmt operations and the end-to-end
+// kinds createIndex / dropIndex / dropIndexByKey / createCollection (and insertOne for comparison), also
+// with a store whose Store fails, check that retention then still works on a private copy.
 
 import (
 	"encoding/json"
@@ -81,15 +92,17 @@ type retainHand struct {
 }
 
 type retainE2E struct {
-	Opts retainParams
-	Kind string // insertMany | updateMany | bulk
-	N    int
+	Opts      retainParams
+	Kind      string // insertMany | updateMany | bulk | insertOne | createIndex | dropIndex | dropIndexByKey | createCollection
+	N         int
+	FailStore bool // the store refuses the commit
 }
 
 type retainSpec struct {
 	Hand      []retainHand
-	Mono      bool // force increasing counters inside runs of equal seconds
-	Real      int  // events appended by real writes of the transaction under test
+	Mono      bool     // force increasing counters inside runs of equal seconds
+	Real      int      // events appended by real writes of the transaction under test
+	Mgmt      []string // management operations of the transaction under test (no events): createIndex | dropIndex | dropIndexByKey | create
 	WriteSeed int
 	Cleans    []retainParams
 	E2E       *retainE2E
@@ -210,6 +223,9 @@ func retainBase(stamps []primitive.Timestamp, seed int, insertsOnly bool) (*lung
 		return nil, err
 	}
 	if err := retainWrites(scratch, retainDataC, "h", len(stamps), seed, insertsOnly); err != nil {
+		return nil, err
+	}
+	if _, err := scratch.CreateIndex(retainDataC, "n_1", mongokit.IndexConfig{Key: bsonkit.MustConvert(bson.D{{Key: "n", Value: int32(1)}})}); err != nil {
 		return nil, err
 	}
 	cat := scratch.Catalog().Clone()
@@ -634,6 +650,93 @@ func retainCase(ob *retainObs, extraTags []string, extraViols []run.Violation) r
 }
 
 // ---------------------------------------------------------------------------------------------
+// snapshots
+
+// retainSnap remembers what a set of documents listed at some point.
+type retainSnap struct {
+	name string
+	set  *bsonkit.Set
+	list bsonkit.List
+	enc  []string
+}
+
+func retainSnapOf(name string, set *bsonkit.Set) *retainSnap {
+	sn := &retainSnap{name: name, set: set, list: append(bsonkit.List{}, set.List...)}
+	for _, d := range sn.list {
+		sn.enc = append(sn.enc, vj.Enc(*d))
+	}
+	return sn
+}
+
+// changed reports how the set differs from what it listed when the snapshot was taken ("" = not at all).
+func (sn *retainSnap) changed() string {
+	if len(sn.set.List) != len(sn.list) {
+		return fmt.Sprintf("%s listed %d events, now %d", sn.name, len(sn.list), len(sn.set.List))
+	}
+	if len(sn.set.Index) != len(sn.list) {
+		return fmt.Sprintf("%s: index of %d events, now %d entries", sn.name, len(sn.list), len(sn.set.Index))
+	}
+	for i, d := range sn.list {
+		if sn.set.List[i] != d {
+			return fmt.Sprintf("%s: position %d holds another event", sn.name, i)
+		}
+		if j, ok := sn.set.Index[d]; !ok || j != i {
+			return fmt.Sprintf("%s: index entry of event %d is %d (present %v)", sn.name, i, j, ok)
+		}
+		if vj.Enc(*d) != sn.enc[i] {
+			return fmt.Sprintf("%s: event %d was modified", sn.name, i)
+		}
+	}
+	return ""
+}
+
+func retainSameEnc(name string, got, want []string) string {
+	if len(got) != len(want) {
+		return fmt.Sprintf("%s listed %d events, now %d", name, len(want), len(got))
+	}
+	for i := range got {
+		if got[i] != want[i] {
+			return fmt.Sprintf("%s: event %d differs", name, i)
+		}
+	}
+	return ""
+}
+
+func retainEncList(l bsonkit.List) []string {
+	out := make([]string, len(l))
+	for i, d := range l {
+		out[i] = vj.Enc(*d)
+	}
+	return out
+}
+
+// retainSnapViols: one finding, two properties (snapshot isolation C03, prefix-only retention C08).
+func retainSnapViols(req, detail string) []run.Violation {
+	var out []run.Violation
+	for _, p := range []string{"C03", "C08"} {
+		out = append(out, run.Violation{Property: p, What: "a view of the change log taken before a retention pass lost or changed events afterwards",
+			Witness: "retention:snapshot-trimmed", Req: req, Detail: detail})
+	}
+	return out
+}
+
+// retainFailStore wraps the memory store; Store fails on demand.
+type retainFailStore struct {
+	inner *lungo.MemoryStore
+	fail  bool
+	calls int
+}
+
+func (s *retainFailStore) Load() (*lungo.Catalog, error) { return s.inner.Load() }
+func (s *retainFailStore) Store(c *lungo.Catalog) error {
+	s.calls++
+	if s.fail {
+		return fmt.Errorf("retain: store refuses")
+	}
+	return s.inner.Store(c)
+}
+
+// ---------------------------------------------------------------------------------------------
 // direct passes: Transaction.Clean on a prepared transaction
 
 type retainNsSnap struct {
@@ -690,6 +793,7 @@ func retainPass(txn *lungo.Transaction, p retainParams, kind string) (ob *retain
 		ob.preEnc = append(ob.preEnc, vj.Enc(*d))
 	}
 	others := retainSnapOthers(cat0)
+	snap0 := &retainSnap{name: "the catalog the pass started from", set: set0, list: ob.pre, enc: ob.preEnc}
 
 	before := bsonkit.Now()
 	func() {
@@ -735,22 +839,15 @@ func retainPass(txn *lungo.Transaction, p retainParams, kind string) (ob *retain
 			}
 		}
 	}
-	if bad == "" {
-		// the catalog the pass started from is a snapshot others may hold: it must be what it was
-		if len(set0.List) != len(ob.pre) || len(set0.Index) != len(ob.pre) {
-			bad = "the previous catalog's oplog changed its length"
-		} else {
-			for i, d := range ob.pre {
-				if set0.List[i] != d || set0.Index[d] != i {
-					bad = fmt.Sprintf("the previous catalog's oplog changed at position %d", i)
-					break
-				}
-			}
-		}
-	}
 	ob.otherOK = bad == ""
 	if bad != "" {
 		extra = append(extra, retainViol("retention touched something else than the transaction's oplog", "retention:touched-other", req, ctx+": "+bad))
+	}
+	// the catalog the pass started from (txn.Catalog() before the call) must list what it listed; whether it is
+	// also a view others hold — the catalog the transaction was started from — is checked by the caller
+	if msg := snap0.changed(); msg != "" && bad == "" {
+		ob.otherOK = false
+		extra = append(extra, retainViol("retention touched something else than the transaction's oplog", "retention:touched-other", req, ctx+": "+msg))
 	}
 	return ob, extra, true
 }
@@ -764,6 +861,26 @@ func retainDirect(spec *retainSpec) []run.Case {
 			return []run.Case{{Impl: `{"bad":` + run.JS(err.Error()) + `}`, Tags: []string{"build-failed"}}}
 		}
 		txn := lungo.NewTransaction(base)
+		baseSnap := retainSnapOf("the catalog the transaction was started from", base.Namespaces[lungo.Oplog].Documents)
+		for _, m := range spec.Mgmt {
+			var err error
+			switch m {
+			case "createIndex":
+				_, err = txn.CreateIndex(retainDataC, "", mongokit.IndexConfig{Key: bsonkit.MustConvert(bson.D{{Key: "grp", Value: int32(1)}})})
+			case "dropIndex":
+				err = txn.DropIndex(retainDataC, "n_1")
+			case "dropIndexByKey":
+				err = txn.DropIndexByKey(retainDataC, bsonkit.MustConvert(bson.D{{Key: "n", Value: int32(1)}}))
+			default:
+				err = txn.Create(lungo.Handle{"db", "fresh"})
+			}
+			if err != nil {
+				return []run.Case{{Impl: `{"bad":` + run.JS(err.Error()) + `}`, Tags: []string{"build-failed"}}}
+			}
+		}
+		if len(spec.Mgmt) > 0 && !txn.Dirty() {
+			return []run.Case{{Impl: `{"bad":"management operations left the transaction clean"}`, Tags: []string{"build-failed"}}}
+		}
 		if spec.Real > 0 {
 			h := retainDataD
 			if spec.WriteSeed%3 == 0 {
@@ -785,12 +902,26 @@ func retainDirect(spec *retainSpec) []run.Case {
 				ticked = true
 				break
 			}
+			sharedOplog := len(spec.Mgmt) > 0 && i == 0 && len(ob.pre) > 0 && ob.panicS == "" &&
+				len(baseSnap.list) == len(ob.pre) && baseSnap.list[0] == ob.pre[0]
+			if ob.panicS == "" {
+				if msg := baseSnap.changed(); msg != "" {
+					ob.otherOK = false
+					extra = append(extra, retainSnapViols("", kind+" "+p.String()+": "+msg)...)
+				}
+			}
 			c := retainCase(ob, spec.Tags, nil)
 			for j := range extra {
 				extra[j].Req = c.Req
 				c.Tags = append(c.Tags, "viol:"+extra[j].Witness)
 			}
 			c.Viols = append(c.Viols, extra...)
+			if len(spec.Mgmt) > 0 {
+				c.Tags = append(c.Tags, "mgmt-only")
+				if sharedOplog && ob.dropped() > 0 {
+					c.Tags = append(c.Tags, "mgmt-only-drop")
+				}
+			}
 			if spec.Real > 0 && i == 0 {
 				c.Tags = append(c.Tags, "real-events")
 			}
@@ -847,23 +978,57 @@ func retainE2EOnce(spec *retainSpec, e *retainE2E) (cases []run.Case, retry bool
 	if err := ms.Store(base); err != nil {
 		return fail(err)
 	}
-	client, engine, err := lungo.Open(nil, lungo.Options{Store: ms, ExpireInterval: time.Hour,
+	store := &retainFailStore{inner: ms}
+	client, engine, err := lungo.Open(nil, lungo.Options{Store: store, ExpireInterval: time.Hour,
 		MinOplogSize: e.Opts.MinSize, MaxOplogSize: e.Opts.MaxSize, MinOplogAge: e.Opts.MinAge, MaxOplogAge: e.Opts.MaxAge})
 	if err != nil {
 		return fail(err)
 	}
 	defer engine.Close()
 
-	set0 := base.Namespaces[lungo.Oplog].Documents
-	old := append(bsonkit.List{}, set0.List...)
+	// views taken before the commit
+	cat0 := engine.Catalog()
+	snap0 := retainSnapOf("engine.Catalog() taken before the commit", cat0.Namespaces[lungo.Oplog].Documents)
+	old := snap0.list
+	want0 := snap0.enc
 	oldSet := map[bsonkit.Doc]bool{}
 	for _, d := range old {
 		oldSet[d] = true
 	}
-	ob := &retainObs{kind: "e2e", p: e.Opts, dirty0: true, dirty1: true, otherOK: true}
+	oplogColl := client.Database("local").Collection("oplog")
+	rtx, err := engine.Begin(nil, false)
+	if err != nil {
+		return fail(err)
+	}
+	rres, err := rtx.Find(lungo.Oplog, bsonkit.MustConvert(bson.D{}), nil, 0, 0)
+	if err != nil {
+		return fail(err)
+	}
+	openCur, err := oplogColl.Find(nil, bson.D{})
+	if err != nil {
+		return fail(err)
+	}
+	var decoded []bson.D
+	if cur, err := oplogColl.Find(nil, bson.D{}); err != nil {
+		return fail(err)
+	} else if err := cur.All(nil, &decoded); err != nil {
+		return fail(err)
+	}
+	encDecoded := func() []string {
+		out := make([]string, len(decoded))
+		for i, d := range decoded {
+			out[i] = vj.Enc(d)
+		}
+		return out
+	}
+	if msg := retainSameEnc("Find before the commit", encDecoded(), want0); msg != "" {
+		return fail(fmt.Errorf("harness: %s", msg))
+	}
 
+	ob := &retainObs{kind: "e2e", p: e.Opts, dirty0: true, dirty1: true, otherOK: true}
 	coll := client.Database("db").Collection("c")
 	expected := e.N
+	store.fail = e.FailStore
 	before := bsonkit.Now()
 	werr := func() (err error) {
 		defer func() {
@@ -872,6 +1037,25 @@ func retainE2EOnce(spec *retainSpec, e *retainE2E) (cases []run.Case, retry bool
 			}
 		}()
 		switch e.Kind {
+		case "createIndex":
+			expected = 0
+			_, err := coll.Indexes().CreateOne(nil, mongo.IndexModel{Keys: bson.D{{Key: "grp", Value: int32(1)}}})
+			return err
+		case "dropIndex":
+			expected = 0
+			_, err := coll.Indexes().DropOne(nil, "n_1")
+			return err
+		case "dropIndexByKey":
+			expected = 0
+			_, err := coll.Indexes().DropOneWithKey(nil, bson.D{{Key: "n", Value: int32(1)}})
+			return err
+		case "createCollection":
+			expected = 0
+			return client.Database("db").CreateCollection(nil, "fresh")
+		case "insertOne":
+			expected = 1
+			_, err := coll.InsertOne(nil, bson.D{{Key: "_id", Value: "one"}, {Key: "n", Value: int64(0)}})
+			return err
 		case "updateMany":
 			res, err := coll.UpdateMany(nil, bson.D{{Key: "grp", Value: bson.D{{Key: "$lt", Value: int64(e.N)}}}}, bson.D{{Key: "$inc", Value: bson.D{{Key: "n", Value: int64(1)}}}})
 			if err != nil {
@@ -907,15 +1091,91 @@ func retainE2EOnce(spec *retainSpec, e *retainE2E) (cases []run.Case, retry bool
 		return nil
 	}()
 	after := bsonkit.Now()
+	store.fail = false
 	if before.T != after.T || before.T != ref.T {
 		return nil, true
 	}
-	if werr != nil {
+	if e.FailStore {
+		if werr == nil && ob.panicS == "" {
+			return fail(fmt.Errorf("the commit succeeded although the store refused (store calls: %d)", store.calls))
+		}
+	} else if werr != nil {
 		return fail(werr)
 	}
 	ob.nowT, ob.loI, ob.hiI = before.T, before.I+1, after.I-1
 
 	tags := append([]string{"e2e:" + e.Kind}, spec.Tags...)
+	if expected == 0 {
+		tags = append(tags, "mgmt-only")
+	}
+	ctx := "e2e " + e.Kind + " " + e.Opts.String()
+
+	// every view taken before the commit must list exactly what it listed
+	var snapMsgs []string
+	note := func(msg string) {
+		if msg != "" {
+			snapMsgs = append(snapMsgs, msg)
+		}
+	}
+	checkViews := func() {
+		note(snap0.changed())
+		note(retainSameEnc("the earlier result of the read-only transaction's Find", retainEncList(rres.Matched), want0))
+		if again, err := rtx.Find(lungo.Oplog, bsonkit.MustConvert(bson.D{}), nil, 0, 0); err != nil {
+			note("the read-only transaction's Find fails after the commit")
+		} else {
+			note(retainSameEnc("the read-only transaction (Begin(ctx,false) before the commit), Find on local.oplog", retainEncList(again.Matched), want0))
+		}
+		var late []bson.D
+		if err := openCur.All(nil, &late); err != nil {
+			note("the cursor opened before the commit fails")
+		} else {
+			got := make([]string, len(late))
+			for i, d := range late {
+				got[i] = vj.Enc(d)
+			}
+			note(retainSameEnc("the cursor over local.oplog opened before the commit", got, want0))
+		}
+		note(retainSameEnc("the decoded result of the Find before the commit", encDecoded(), want0))
+	}
+
+	if e.FailStore {
+		// nothing was published: same catalog, same log, readers see the old log
+		var viols []run.Violation
+		if ob.panicS != "" {
+			viols = append(viols, retainViol("retention panicked", "retention:panic", "", ctx+" "+ob.panicS))
+		} else {
+			checkViews()
+			cat1 := engine.Catalog()
+			if cat1 != cat0 {
+				note("a catalog was published although its Store failed")
+				if set1 := cat1.Namespaces[lungo.Oplog].Documents; set1 != snap0.set {
+					note(retainSameEnc("the published log after the failed Store", retainEncList(set1.List), want0))
+				}
+			}
+			if stored, _ := ms.Load(); stored != base {
+				note("the store holds another catalog although Store failed")
+			}
+			if msg := retainReaders(client, want0); msg != "" {
+				note("after the failed Store: " + msg)
+			}
+		}
+		tags = append(tags, "store-fails", retainDropTag(0, len(old)))
+		if len(snapMsgs) > 0 {
+			viols = append(viols, retainSnapViols("", ctx+" (Store fails): "+strings.Join(snapMsgs, "; "))...)
+		}
+		for _, v := range viols {
+			tags = append(tags, "viol:"+v.Witness)
+		}
+		o := retainOracle{p: e.Opts, nowT: ob.nowT}
+		for _, d := range old {
+			ts, _ := retainTsOf(d)
+			o.ts = append(o.ts, ts)
+		}
+		// monitor-only case (no model request): the commit's own retention result is not observable
+		return []run.Case{{Impl: fmt.Sprintf(`{"ok":{"store-fails":%q,"n":%d}}`, e.Kind, len(old)) + ctx + fmt.Sprint(ob.nowT), Tags: tags, Viols: viols,
+			Nontrivial: o.mustDrop() > 0 || o.someBeyond()}}, false
+	}
+
 	var extra []run.Violation
 	if ob.panicS == "" {
 		cat1 := engine.Catalog()
@@ -929,34 +1189,35 @@ func retainE2EOnce(spec *retainSpec, e *retainE2E) (cases []run.Case, retry bool
 			}
 		}
 		ob.pre = append(append(bsonkit.List{}, old...), fresh...)
-		for _, d := range ob.pre {
-			ob.preEnc = append(ob.preEnc, vj.Enc(*d))
-		}
+		ob.preEnc = append(append([]string{}, want0...), retainEncList(fresh)...)
 		if len(fresh) != expected {
 			// the commit's own events are younger than any MinOplogAge > 0 (the engine never runs with 0)
 			v := retainViol("retention at commit removed events appended by that very commit (younger than MinOplogAge)", "retention:protected-removed", "",
-				fmt.Sprintf("e2e %s %s n=%d: %d of the %d new events are in the published log", e.Kind, e.Opts, e.N, len(fresh), expected))
+				fmt.Sprintf("%s n=%d: %d of the %d new events are in the published log", ctx, e.N, len(fresh), expected))
 			return []run.Case{{Impl: `{"ok":"new-events-missing"}`, Tags: append(tags, "viol:"+v.Witness), Viols: []run.Violation{v}, Nontrivial: true}}, false
 		}
 		if stored, _ := ms.Load(); stored != cat1 {
 			ob.otherOK = false
-			extra = append(extra, retainViol("the stored catalog is not the published one", "retention:touched-other", "", "e2e "+e.Opts.String()))
+			extra = append(extra, retainViol("the stored catalog is not the published one", "retention:touched-other", "", ctx))
 		}
-		// the snapshot the engine started from must be intact
-		if len(set0.List) != len(old) || len(set0.Index) != len(old) {
+		if cat1 == cat0 || (ob.set == snap0.set && len(ob.post) != len(old)) {
 			ob.otherOK = false
-			extra = append(extra, retainViol("the previously published oplog was modified in place", "retention:touched-other", "", "e2e "+e.Opts.String()))
+			extra = append(extra, retainViol("the commit changed the previously published catalog in place", "retention:touched-other", "", ctx))
+		}
+		checkViews()
+		if len(snapMsgs) > 0 {
+			ob.otherOK = false
+			extra = append(extra, retainSnapViols("", ctx+": "+strings.Join(snapMsgs, "; "))...)
 		}
 		// readers: Find on local.oplog and a change stream from the beginning of time
-		want := make([]string, len(ob.post))
-		for i, d := range ob.post {
-			want[i] = vj.Enc(*d)
-		}
-		if msg := retainReaders(client, want); msg != "" {
-			extra = append(extra, retainViol("a reader of the oplog does not see exactly the retained suffix", "retention:reader-not-suffix", "", "e2e "+e.Opts.String()+": "+msg))
+		if msg := retainReaders(client, retainEncList(ob.post)); msg != "" {
+			extra = append(extra, retainViol("a reader of the oplog does not see exactly the retained suffix", "retention:reader-not-suffix", "", ctx+": "+msg))
 		}
 		if d := ob.dropped(); d >= 2 {
 			tags = append(tags, "e2e-multi-drop")
+		}
+		if expected == 0 && ob.dropped() > 0 {
+			tags = append(tags, "mgmt-only-drop")
 		}
 	}
 	c := retainCase(ob, tags, nil)
@@ -1107,6 +1368,12 @@ func retainGenSpec(r *gen.R) *retainSpec {
 	if real > k {
 		real = k
 	}
+	if r.P(12) {
+		// a transaction that only managed indexes / collections: dirty, no events, oplog never cloned
+		real = 0
+		spec.Mgmt = [][]string{{"createIndex"}, {"dropIndex"}, {"dropIndexByKey"}, {"create"}, {"createIndex", "create"},
+			{"create", "dropIndex"}, {"createIndex", "dropIndexByKey"}}[r.N(7)]
+	}
 	spec.Real = real
 	h := k - real
 	p := retainGenParams(r, k)
@@ -1172,7 +1439,7 @@ func retainGenE2E(r *gen.R) *retainSpec {
 		h = 0
 	}
 	n := 2 + r.N(6)
-	kind := []string{"insertMany", "insertMany", "updateMany", "bulk"}[r.N(4)]
+	kind := []string{"insertMany", "insertMany", "updateMany", "bulk", "insertOne", "createIndex", "createIndex", "dropIndex", "dropIndexByKey", "createCollection"}[r.N(10)]
 	if kind == "updateMany" {
 		if h < 2 {
 			h = 2 + r.N(4)
@@ -1202,12 +1469,12 @@ func retainGenE2E(r *gen.R) *retainSpec {
 	for _, a := range ages {
 		spec.Hand = append(spec.Hand, retainHand{Age: a, Mode: []int{0, 1, 2}[r.N(3)], Off: r.N(20)})
 	}
-	spec.E2E = &retainE2E{Opts: retainParams{MinSize: m, MaxSize: M, MinAge: minAge, MaxAge: maxAge}, Kind: kind, N: n}
+	spec.E2E = &retainE2E{Opts: retainParams{MinSize: m, MaxSize: M, MinAge: minAge, MaxAge: maxAge}, Kind: kind, N: n, FailStore: r.P(20)}
 	return spec
 }
 
 func retainGen(r *gen.R, idx int) []run.Case {
-	if r.P(5) {
+	if r.P(8) {
 		return retainE2ERun(retainGenE2E(r))
 	}
 	return retainDirect(retainGenSpec(r))
@@ -1265,6 +1532,20 @@ func retainCorpus() []run.Case {
 		{Hand: retainHands(0, 7200, 7200, 10, 9, 8), Mono: true, E2E: &retainE2E{Opts: retainParams{1, 100, 1, h}, Kind: "bulk", N: 4}, Tags: []string{"corpus:e2e-by-age"}},
 		{Hand: retainHands(0, 10, 9, 8, 7), Mono: true, E2E: &retainE2E{Opts: retainParams{5, 2, 1, s}, Kind: "insertMany", N: 2}, Tags: []string{"corpus:e2e-min>max"}},
 		{Mono: true, E2E: &retainE2E{Opts: retainParams{1, 2, 1, s}, Kind: "insertMany", N: 5}, Tags: []string{"corpus:e2e-empty-store"}},
+		// management-only transactions: dirty, no events of their own, oplog never cloned
+		{Hand: retainHands(0, 10, 9, 8, 7, 6), Mgmt: []string{"createIndex"}, Cleans: []retainParams{{0, 2, 0, h}, {0, 1, 0, h}}, Tags: []string{"corpus:mgmt-createIndex"}},
+		{Hand: retainHands(0, 10, 9, 8, 7, 6), Mgmt: []string{"dropIndex"}, Cleans: []retainParams{{1, 100, 0, 7 * s}}, Tags: []string{"corpus:mgmt-dropIndex"}},
+		{Hand: retainHands(0, 10, 9, 8, 7, 6), Mgmt: []string{"dropIndexByKey"}, Cleans: []retainParams{{0, 0, 0, 0}}, Tags: []string{"corpus:mgmt-dropIndexByKey"}},
+		{Hand: retainHands(0, 10, 9, 8, 7, 6), Mgmt: []string{"create"}, Cleans: []retainParams{{2, 3, s, h}}, Tags: []string{"corpus:mgmt-create"}},
+		{Hand: retainHands(0, 10, 9, 8, 7, 6), Mgmt: []string{"create"}, Cleans: []retainParams{{5, 5, 0, h}}, Tags: []string{"corpus:mgmt-create-noop"}},
+		{Hand: retainHands(0, 10, 9, 8, 7), Mono: true, E2E: &retainE2E{Opts: retainParams{1, 2, 1, h}, Kind: "createIndex"}, Tags: []string{"corpus:e2e-createIndex"}},
+		{Hand: retainHands(0, 10, 9, 8, 7), Mono: true, E2E: &retainE2E{Opts: retainParams{1, 2, 1, h}, Kind: "dropIndex"}, Tags: []string{"corpus:e2e-dropIndex"}},
+		{Hand: retainHands(0, 7200, 7200, 8, 7), Mono: true, E2E: &retainE2E{Opts: retainParams{1, 100, 1, h}, Kind: "dropIndexByKey"}, Tags: []string{"corpus:e2e-dropIndexByKey"}},
+		{Hand: retainHands(0, 10, 9, 8, 7), Mono: true, E2E: &retainE2E{Opts: retainParams{1, 1, 1, h}, Kind: "createCollection"}, Tags: []string{"corpus:e2e-createCollection"}},
+		{Hand: retainHands(0, 10, 9, 8, 7), Mono: true, E2E: &retainE2E{Opts: retainParams{1, 2, 1, h}, Kind: "insertOne"}, Tags: []string{"corpus:e2e-insertOne"}},
+		{Hand: retainHands(0, 10, 9, 8, 7), Mono: true, E2E: &retainE2E{Opts: retainParams{1, 2, 1, h}, Kind: "createIndex", FailStore: true}, Tags: []string{"corpus:e2e-createIndex-store-fails"}},
+		{Hand: retainHands(0, 10, 9, 8, 7), Mono: true, E2E: &retainE2E{Opts: retainParams{1, 2, 1, h}, Kind: "createCollection", FailStore: true}, Tags: []string{"corpus:e2e-createCollection-store-fails"}},
+		{Hand: retainHands(0, 10, 9, 8, 7), Mono: true, E2E: &retainE2E{Opts: retainParams{1, 2, 1, h}, Kind: "insertMany", N: 3, FailStore: true}, Tags: []string{"corpus:e2e-insertMany-store-fails"}},
 	}
 	var out []run.Case
 	for _, sp := range specs {
